@@ -343,6 +343,13 @@ def channels():
         '</dtml-in>]', order=True)
     add('sort-batched', '[<dtml-in s sort={A} size=2><dtml-var pub>;'
         '</dtml-in>]', order=True)
+    # the attribute a loop is sorted by, looked up as a name in its body
+    add('sort-then-show', '[<dtml-in s sort={A}><dtml-var {A} missing="-">;'
+        '</dtml-in>]')
+    add('sort-expr-then-show', '[<dtml-in s sort_expr="\'{A}\'">'
+        '<dtml-var {A} missing="-">;</dtml-in>]')
+    add('sort-two-then-show', '[<dtml-in s sort=grp,{A}/cmp/desc size=3 '
+        'orphan=0><dtml-var {A} missing="-">;</dtml-in>]')
     add('sub-template', '[<dtml-var sub>]', sub='<dtml-with o>'
         '<dtml-var {A} missing="-">|<dtml-var pub></dtml-with>')
     add('sub-template-expr', '[<dtml-var sub>]', sub='<dtml-var "o.{A}">|'
